@@ -827,7 +827,23 @@ def wl_misc(rng, rec, tier):
     import quimb as qu
     from quimb.linalg.base_linalg import IdentityLinearOperator
     m, n = int(rng.integers(2, 9)), int(rng.integers(2, 9))
-    which = gen.choice(rng, ["coo_dup", "dia", "ident"])
+    which = gen.choice(rng, ["coo_dup", "dia", "ident", "lazy"])
+    if which == "lazy":
+        # a lazily built operator scaled in place denotes the scaled operator
+        d_ = int(rng.integers(2, 6))
+        M = gen.rand_array(rng, (d_, d_), "complex128")
+        c = complex(np.round(rng.normal(), 3), np.round(rng.normal(), 3)) or 2.0
+        H = qu.Lazy(lambda: M.copy(), shape=(d_, d_))
+        try:
+            H *= c
+            got = None if H is None else np.asarray(H())
+        except Exception:
+            rec.count("lazy", "imul", "rejected")
+            return {"which": which}
+        ok = got is not None and float(np.abs(got - c * M).max()) <= 1e-12 * (abs(c) + 1)
+        rec.check("lazy", "imul", bool(ok), mech="lazy:imul:operator_lost",
+                  detail={"result_is_none": got is None}, sig=("lazy_imul",))
+        return {"which": which}
     if which == "coo_dup":
         nnz = int(rng.integers(1, 3 * m))
         rows = rng.integers(0, m, size=nnz)
